@@ -3,8 +3,11 @@
 package main
 
 import (
+	"regexp"
 	"strings"
 )
+
+var c02SignedRe = regexp.MustCompile(`(^|[ (])-(\d+(?:\.\d+)?)`)
 
 func init() { registry["C02"] = genC02 }
 
@@ -17,6 +20,7 @@ type c02Tok struct {
 	s      string
 	prefix bool // prefix operator: no space after
 	chain  bool // postfix chain: no space before
+	multi  bool // the chain is written on its own line (`\n  |.p`): the same grouping as on one line
 }
 
 func c02Join(toks []c02Tok) (src string, line string) {
@@ -26,6 +30,9 @@ func c02Join(toks []c02Tok) (src string, line string) {
 		parts = append(parts, t.s)
 		if i > 0 && !t.chain && !toks[i-1].prefix && toks[i-1].s != "(" && t.s != ")" {
 			sb.WriteString(" ")
+		}
+		if t.chain && t.multi {
+			sb.WriteString("\n  |")
 		}
 		sb.WriteString(t.s)
 	}
@@ -111,6 +118,11 @@ func genC02(c *Ctx) {
 			emit([]c02Tok{id("a"), {s: ch, chain: true}, id(o), id("b")}, "chain-infix", true)
 			emit([]c02Tok{id("a"), id(o), id("b"), {s: ch, chain: true}}, "chain-infix", true)
 			emit([]c02Tok{id("a"), id(o), id("b"), {s: ch, chain: true}, id(o), id("c")}, "chain-infix", true)
+			// the same chains written on their own line
+			emit([]c02Tok{id("a"), id(o), id("b"), {s: ch, chain: true, multi: true}}, "multiline-chain", true)
+			emit([]c02Tok{id("a"), id(o), id("b"), {s: ch, chain: true, multi: true}, {s: ".s", chain: true, multi: true}}, "multiline-chain", true)
+			emit([]c02Tok{id("x"), id(":="), id("a"), id(o), id("b"), {s: ch, chain: true, multi: true}}, "multiline-chain", true)
+			emit([]c02Tok{{s: "-", prefix: true}, id("a"), id(o), id("b"), {s: ch, chain: true, multi: true}}, "multiline-chain", true)
 		}
 		emit([]c02Tok{id("a"), id(o), id("b"), id("if"), id("c"), id(o), id("d")}, "if-infix", true)
 		emit([]c02Tok{id("a"), id(o), id("b"), id("if"), id("c"), id(o), id("d"), id("else"), id("e"), id(o), id("g")}, "if-infix", true)
@@ -146,6 +158,29 @@ func genC02(c *Ctx) {
 			emit([]c02Tok{{s: p, prefix: true}, id(lit), id("*"), id("b")}, "prefix-literal-postfix", true)
 			for _, ch := range c02Chains[:2] {
 				emit([]c02Tok{{s: p, prefix: true}, id(lit), {s: ch, chain: true}}, "prefix-literal-postfix", true)
+			}
+		}
+	}
+	// ---- a minus sign in front of a number literal is folded into the literal by the parser; the grouping is still
+	// the one of a prefix operator (the printed `-2` is rewritten to `(-2)` before the comparison)
+	signed := func(toks []c02Tok) {
+		src, line := c02Join(toks)
+		if !c.Mine() {
+			return
+		}
+		impl := c02SignedRe.ReplaceAllString(parseString(src), "${1}(-${2})")
+		c.Em.Emit(Rec{Case: "C02 " + line, Impl: impl, Src: src, NT: true, Tags: []string{"signed-literal"}})
+	}
+	neg := c02Tok{s: "-", prefix: true}
+	for _, o := range c02Infix {
+		for _, lit := range []string{"2", "2.5", "10"} {
+			signed([]c02Tok{neg, id(lit), id(o), id("3")})
+			signed([]c02Tok{id("a"), id(o), neg, id(lit)})
+			signed([]c02Tok{neg, id(lit), id(o), neg, id("3"), id(o), id("b")})
+			signed([]c02Tok{id("("), neg, id(lit), id(")"), id(o), id("3")})
+			signed([]c02Tok{id("x"), id(":="), neg, id(lit), id(o), id("c")})
+			for _, o2 := range []string{"**", "*", "+", "<"} {
+				signed([]c02Tok{id("a"), id(o2), neg, id(lit), id(o), id("b")})
 			}
 		}
 	}
@@ -192,7 +227,7 @@ func genC02(c *Ctx) {
 			toks = append(toks, c02Operand(c, k, last != "")...)
 			k++
 			for c.Rng.Intn(5) == 0 {
-				toks = append(toks, c02Tok{s: c.Rng.Pick(c02Chains), chain: true})
+				toks = append(toks, c02Tok{s: c.Rng.Pick(c02Chains), chain: true, multi: c.Rng.Intn(4) == 0})
 			}
 		}
 		if c.Rng.Intn(5) == 0 {
